@@ -201,8 +201,14 @@ def c08_exec(plan):
                 idx = [(u[2] >> (5 * j)) % n if j % 2 == 0 else (u[3] >> (5 * j)) % n for j in range(k)]
                 if op == "setlist":
                     val, desc, bits = rhs_for(s["rhs"], len(idx), False)
+                    if (u[4] & 3) == 0:
+                        # from-the-end positions in the caller's index list (assignment only: reading through a
+                        # list with negative entries is not supported by the library)
+                        idx = [(x - n) if ((u[4] >> (2 + j)) & 1) else x for j, x in enumerate(idx)]
+                    lst = list(idx)
                     ev["a"] = {"h": i, "idx": idx, "rhs": desc, "bits": bits}
-                    H[i][list(idx)] = val
+                    H[i][lst] = val
+                    ev["a"]["idx_after"] = list(lst)      # the caller's list object after the call
                 else:
                     ev["a"] = {"h": i, "idx": idx, "dst": s.get("dst")}
                     res = H[i][list(idx)]
@@ -394,7 +400,9 @@ class C08(Machine):
                    "tree with IndexError); refused or not, every vector must still equal its reference cell and satisfy ival<=mask. "
                    "No atomicity is promised for a failing slice/list __setitem__, so all other operations are valid for the "
                    "current vector (the executor concretises indices against the actual size)",
-                   "aliasing of zero/sign extension results is observed, not demanded; index lists hold in-range non-negative indices",
+                   "aliasing of zero/sign extension results is observed, not demanded; index lists hold in-range indices (from-the-end "
+                   "positions only in assignments: reading through a list with negative entries is unsupported by the library); the "
+                   "caller's index list must be unchanged by the call",
                    "an int assigned to a stepped slice or an index list has exactly as many bits as the selection"]
 
     def executor(self):
@@ -554,7 +562,13 @@ class C08(Machine):
                 elif op in ("setslice", "setlist"):
                     cell = hc[a["h"]]
                     # the right-hand side may be a heap handle: its cell must not change
-                    cells[cell] = R.assign(cells[cell], a["idx"], a["bits"])
+                    nn = cells[cell][1]
+                    cells[cell] = R.assign(cells[cell], [x % nn if x < 0 else x for x in a["idx"]], a["bits"])
+                    if op == "setlist" and any(x < 0 for x in a["idx"]):
+                        probe("index_list_with_from_the_end_positions")
+                    if op == "setlist" and a.get("idx_after") != a["idx"]:
+                        vs.append(vio("argument_changed", "Bits", op, e["id"], {"index_list_before": a["idx"], "after": a.get("idx_after")}))
+                        break
                     mutated = cell
                     wcls = _wc(cells[cell][1]) + _sc(a)
                     if op == "setslice" and (a["slice"][2] not in (None, 1) or any(x is not None and x < 0 for x in a["slice"][:2])):
